@@ -36,7 +36,7 @@ def rand_settings(rng):
 # ------------------------------------------------------------------------------------------------
 
 def gen_alpha(rng, m, n, style=None):
-    style = style or rng.choice(['int', 'int', 'half', 'nonneg_zero', 'nonneg_zero'])
+    style = style or rng.choice(['int', 'int', 'half', 'nonneg_zero', 'nonneg_zero', 'mixed_zero'])
     rows, seen = [], set()
     attempts = 0
     while len(rows) < m:
@@ -52,6 +52,19 @@ def gen_alpha(rng, m, n, style=None):
         if r not in seen:
             seen.add(r)
             rows.append(list(r))
+    if style == 'mixed_zero' and n >= 2 and len(rows) >= 3:
+        # mixed-sign exponents WITH a zero row and an orthogonal pair: the sign-based cover reduction must not fire here
+        a, b_ = rng.randint(1, 3), rng.randint(1, 3)
+        r1 = [F(a), F(b_)] + [F(0)] * (n - 2)
+        r2 = [F(b_), F(-a)] + [F(0)] * (n - 2)
+        rows[0], rows[1], rows[2] = [F(0)] * n, r1, r2
+        if len(rows) >= 4:
+            rows[3] = [F(2 * a - b_), F(2 * b_ + a)] + [F(0)] * (n - 2)      # r1 = (r2 + r3) / 2: a circuit through r1
+        uniq = []
+        for r in rows:
+            if r not in uniq:
+                uniq.append(r)
+        rows = uniq
     if style == 'nonneg_zero' and not any(all(x == 0 for x in r) for r in rows):
         rows[rng.randrange(m)] = [F(0)] * n
         # keep rows distinct
@@ -119,10 +132,10 @@ def gen_covers(rng, m, mode):
     return covers
 
 
-def gen_instance(rng, primal=True, m=None, n=None):
+def gen_instance(rng, primal=True, m=None, n=None, alpha_style=None):
     n = n or rng.randint(1, 3)
     m = m or rng.choice([1, 2, 3, 3, 4, 4, 5, 6])
-    alpha = gen_alpha(rng, m, n)
+    alpha = gen_alpha(rng, m, n, alpha_style)
     m = len(alpha)
     nuser = rng.randint(0, 2)
     inst = {'primal': primal, 'n': n, 'alpha': alpha, 'X': gen_domain(rng, n), 'nuser': nuser,
